@@ -182,8 +182,11 @@ theorem deserializeChild_hash32 (H : Bytes → Bytes) (c : Bytes) (n : WN) (h : 
       · have h72 : 72 ≤ c.length := by omega
         have s4 : slice c 40 (40 + 32) = .ok ((c.take 72).drop 40) := by unfold slice; simp; omega
         have s5 : sliceFrom c (40 + 32) = .ok (c.drop 72) := by unfold sliceFrom; simp; omega
-        simp only [l, if_false, s4, s5, Res.ok.injEq, Option.some.injEq] at h
-        subst h; simpa [calcHash] using l32
+        simp only [l, if_false, s4, s5] at h
+        by_cases hk : isNibbles (c.drop 72) = true
+        · simp only [hk, Bool.not_true, Bool.false_eq_true, if_false, Res.ok.injEq, Option.some.injEq] at h
+          subst h; simpa [calcHash] using l32
+        · simp [hk] at h
   · simp [h40] at h
 
 theorem deserializeChildren_hash32 (H : Bytes → Bytes) (hlen : ∀ x, (H x).length = 32) (cs : List Bytes) (ns : List WN) (w : Nat)
@@ -260,6 +263,9 @@ theorem deserializeNode_routing_hash32 (H : Bytes → Bytes) (hlen : ∀ x, (H x
           | none => simp [hs] at hq
           | some sv =>
             simp only [hs] at hq
+            by_cases hk : isNibbles sv.key = true
+            case neg => simp [hk] at hq
+            simp only [hk, Bool.not_true, Bool.false_eq_true, if_false] at hq
             by_cases hl : sv.value.length ≠ hashWithWeightLength
             · simp [hl] at hq
             · simp only [hl, if_false] at hq
@@ -419,7 +425,7 @@ theorem sound_core (H : Bytes → Bytes) (hlen : ∀ x, (H x).length = 32) (t : 
 
 /-- honest proofs are faithful (so the hypothesis of the soundness theorem is satisfiable by every trie) -/
 theorem faithful_honest (H : Bytes → Bytes) (hlen : ∀ x, (H x).length = 32) (t : PT) (b : Nat) (tail : List PairD)
-    (hb1 : 1 ≤ b) (hb : b ≤ t.weight) (hw : t.weight < 2 ^ 64) :
+    (hb1 : 1 ≤ b) (hb : b ≤ t.weight) (hw : t.weight < 2 ^ 64) (hkn : KeysNib t) :
     Faithful t ((t.proofPairs H b).map PairD.ok ++ tail) b := by
   induction t generalizing b with
   | none => simp [PT.weight] at hb; omega
@@ -429,13 +435,13 @@ theorem faithful_honest (H : Bytes → Bytes) (hlen : ∀ x, (H x).length = 32) 
   | short k c ih =>
     simp only [PT.weight] at hb hw
     simp only [PT.proofPairs, List.map_cons, List.cons_append, Faithful]
-    exact ⟨k, _, _, deserializeNode_short H hlen k c hw, ih b hb1 hb hw⟩
+    exact ⟨k, _, _, deserializeNode_short H hlen k c hw hkn.1, ih b hb1 hb hw hkn.2⟩
   | branch ch ih =>
     simp only [PT.proofPairs, List.map_cons, List.cons_append, Faithful]
-    refine ⟨_, _, _, deserializeNode_branch H hlen ch hw, fun i => PT.refOf_weight H (ch i), ?_⟩
+    refine ⟨_, _, _, deserializeNode_branch H hlen ch hw hkn, fun i => PT.refOf_weight H (ch i), ?_⟩
     intro i b' hp
     obtain ⟨h1, h2, _, _⟩ := pick_bounds ch allNib b i b' hb1 hp
     simp only [hp]
-    exact ih i b' h1 h2 (Nat.lt_of_le_of_lt (PT.weight_child_le ch i) hw)
+    exact ih i b' h1 h2 (Nat.lt_of_le_of_lt (PT.weight_child_le ch i) hw) (hkn i)
 
 end Verif.Wmpt
